@@ -57,6 +57,7 @@ type Result struct {
 	Samples        [][]string
 	Revisits       int // transitions that led to an already known state
 	ObsChecked     int // revisits on which the differential oracle was evaluated
+	Pruned         int // violating transitions whose target state was not expanded
 }
 
 type succ struct {
@@ -163,6 +164,12 @@ func BFS(cfg Config) Result {
 				res.RealCalls += len(frontier[i]) + 1
 				hist := append(append([]int{}, frontier[i]...), l)
 				collectFails(&res, failSeen, cfg.MaxFails, s.fails, name(hist))
+				if len(s.fails) > 0 {
+					// A state reached through a violating transition is not expanded: every signature reported
+					// then belongs to a minimal failing history instead of an accumulation of earlier damage.
+					res.Pruned++
+					continue
+				}
 				if prev, ok := seen[s.hash]; ok {
 					res.Revisits++
 					if s.obs != "" || prev != "" {
